@@ -47,9 +47,7 @@ def not_implemented_contract():
 
 
 def run(tier, seed, t0):
-    tasks = [Task('solve', su.run_units, ['solve'], weight=10), Task('solve-noprompt', su.run_units, ['solve[no-prompt]'], weight=8),
-             Task('attempt', su.run_units, ['_attempt_field'], weight=2), Task('ni', not_implemented_contract)]
-    obs = oblig.run_tasks(tasks, jobs=4)
-    obs = su.finish_with_refutation('C01', obs, select, seed, tier) + [o for o in obs if o.id.startswith('C01/')]
-    return oblig.finish('C01', tier, seed, obs, t0, functions=FUNCS, trusted_base=base.TRUSTED + ['contracts/core/solver.py', 'contracts/core/tracker.py'],
-                        assumptions=ASSUME, checker_cmd='./check C01', min_obligations=100)
+    from . import solver_props as sp
+    obs = sp.gather('C01', tier, seed, [Task('ni', not_implemented_contract)])
+    return oblig.finish('C01', tier, seed, obs, t0, functions=FUNCS + ['__init__.py:solve'], trusted_base=sp.TRUST,
+                        assumptions=sp.ASSUME, checker_cmd='./check C01', min_obligations=100)
